@@ -1,0 +1,83 @@
+//! Verification hooks (compiled only with `--cfg wtransport_verif`).
+//!
+//! One event per await-free segment of the driver's mechanism, handed to a sink that a
+//! conformance harness installs. Without a sink an event costs one atomic load.
+
+use std::sync::atomic::AtomicU64;
+use std::sync::atomic::Ordering;
+use std::sync::OnceLock;
+
+/// Receives `(connection, event, fields)`.
+pub type Sink = Box<dyn Fn(u64, &'static str, &[(&'static str, u64)]) + Send + Sync>;
+
+static SINK: OnceLock<Sink> = OnceLock::new();
+static CALLS: AtomicU64 = AtomicU64::new(0);
+static CONNS: AtomicU64 = AtomicU64::new(0);
+
+tokio::task_local! {
+    /// The connection a driver worker task belongs to.
+    pub(crate) static CONN: u64;
+}
+
+/// A fresh process-wide identifier for one connection's driver.
+pub(crate) fn next_conn() -> u64 {
+    CONNS.fetch_add(1, Ordering::Relaxed) + 1
+}
+
+/// The connection of the current (worker) task; 0 outside of one.
+pub(crate) fn conn() -> u64 {
+    CONN.try_with(|c| *c).unwrap_or(0)
+}
+
+/// Installs the process-wide sink (first call wins).
+pub fn install(sink: Sink) {
+    let _ = SINK.set(sink);
+}
+
+#[inline]
+pub(crate) fn emit(conn: u64, event: &'static str, fields: &[(&'static str, u64)]) {
+    if let Some(sink) = SINK.get() {
+        sink(conn, event, fields);
+    }
+}
+
+/// Serialises "report, then hand over" pairs: while the guard lives no other such pair can
+/// interleave, so the order of the reports is the order of the hand-overs.
+pub(crate) fn order_lock() -> std::sync::MutexGuard<'static, ()> {
+    static ORDER: std::sync::Mutex<()> = std::sync::Mutex::new(());
+    ORDER.lock().unwrap_or_else(|e| e.into_inner())
+}
+
+/// A fresh identifier for one application call.
+pub(crate) fn next_call() -> u64 {
+    CALLS.fetch_add(1, Ordering::Relaxed) + 1
+}
+
+/// Reports an application call whose future is dropped before it completed.
+pub(crate) struct CallGuard {
+    conn: u64,
+    call: u64,
+    armed: bool,
+}
+
+impl CallGuard {
+    pub(crate) fn new(conn: u64, call: u64) -> Self {
+        Self {
+            conn,
+            call,
+            armed: true,
+        }
+    }
+
+    pub(crate) fn disarm(&mut self) {
+        self.armed = false;
+    }
+}
+
+impl Drop for CallGuard {
+    fn drop(&mut self) {
+        if self.armed {
+            emit(self.conn, "a_drop", &[("call", self.call)]);
+        }
+    }
+}
